@@ -13,7 +13,7 @@ import common
 import readcheck
 
 LEVEL = "proof"
-CONE = ["Props/C06.v", "Base/Hoare.v", "Proofs/SafeLeaf1.v", "Proofs/SafeLeaf2.v", "Proofs/SafeLeaf3.v", "Proofs/SafeLeaf4.v", "Proofs/SafeReader.v"]
+CONE = ["Props/C06.v", "Base/Hoare.v", "Proofs/SafeLeaf.v", "Proofs/SafeLeaf1.v", "Proofs/SafeLeaf2.v", "Proofs/SafeLeaf3.v", "Proofs/SafeLeaf4.v", "Proofs/SafeLoop.v", "Proofs/SafeValues.v", "Proofs/SafeContainers.v", "Proofs/SafeContainers2.v", "Proofs/SafeLookup.v", "Proofs/SafeReader.v"]
 
 
 def corpus(rep):
